@@ -83,15 +83,15 @@ inductive Label where
 deriving DecidableEq, BEq, Hashable, Repr
 
 /-! ### result states (shared by `next` and `Step`) -/
-def doSubmit (s : S) (p : Bool) : S :=
+abbrev doSubmit (s : S) (p : Bool) : S :=
   { s with inq := s.inq ++ [s.nextId], nextId := s.nextId + 1, pan := if p then s.nextId :: s.pan else s.pan }
-def doTake (s : S) (t : Nat) (rest : List Nat) : S :=
+abbrev doTake (s : S) (t : Nat) (rest : List Nat) : S :=
   { s with tq := rest, running := t :: s.running, started := s.started ++ [t] }
-def doFinish (s : S) (t : Nat) : S :=
+abbrev doFinish (s : S) (t : Nat) : S :=
   { s with running := s.running.erase t, reporting := s.reporting + 1, finished := t :: s.finished,
            recovered := if t ∈ s.pan then t :: s.recovered else s.recovered }
-def doReport (s : S) : S := { s with reporting := s.reporting - 1, ready := s.ready + 1 }
-def doReady (s : S) (pc : PC) : S := { s with ready := s.ready - 1, processed := s.processed + 1, pc := pc }
+abbrev doReport (s : S) : S := { s with reporting := s.reporting - 1, ready := s.ready + 1 }
+abbrev doReady (s : S) (pc : PC) : S := { s with ready := s.ready - 1, processed := s.processed + 1, pc := pc }
 
 /-- the executable one-step function -/
 def next (c : Cfg) (s : S) : Label → Option S
